@@ -114,6 +114,18 @@ func c10Worker(env *fw.Env) {
 			}
 		}
 	}
+	// Close right after the reconnect loop published the next generation (c10_publish.go)
+	base, n = 4_000_000, 0
+	for rep := 0; rep < env.Pick(2, 8); rep++ {
+		for _, active := range []bool{false, true} {
+			i := base + n
+			n++
+			if !env.Mine(n) || !env.Want(i) {
+				continue
+			}
+			c10CloseAfterPublish(env, c10PublishCase{Index: i, Active: active})
+		}
+	}
 	// Close while a dial is in flight and nothing comes back (c10_dial.go)
 	base, n = 3_000_000, 0
 	for rep := 0; rep < env.Pick(1, 4); rep++ {
